@@ -834,7 +834,7 @@ func TestRepo(t *testing.T) {
 				}
 				cs := fp
 				k := uint64(col.Seed)*1000003 + uint64(idx)*7919 + uint64(round)
-				cs.Prune = k%3 == 1
+				cs.Prune = k%3 == 1 && !fp.noPrune
 				cs.GMW = k%5 == 2 && !fp.noGMW
 				if !fp.noHistory {
 					n := int(k % 4)
